@@ -266,6 +266,10 @@ def h_mm_commit(env: str, metadata_only_stamp=False):
         fl = [e for e in st.events if e.get("by_me")]
         metaw = [e for e in st.events if e.get("is_metadata")]
         # ---------------- always
+        dels = [e for e in st.events if e["op"] in ("delete_file", "rename", "remove")]
+        h.ensure("FRAME:commit-deletes-or-renames-nothing(the-metadata-file-it-wrote-stays:the-pointer-may-name-it-after-an-ambiguous-failure)",
+                 not dels, detail="an ambiguous pointer write may have landed: deleting the new metadata file leaves the pointer dangling "
+                 "and recovery silently serves the previous version " + repr([e["op"] for e in dels]))
         h.ensure("GUAR-lock:lock-released-on-every-path", not lock.held)
         rel = [e for e in lock.events if e["op"] == "lock.release"]
         acq = [e for e in lock.events if e["op"] == "lock.acquire" and e["ok"]]
@@ -458,8 +462,13 @@ try:
     mdir = os.path.join(root, "o", "metadata")
     curf = open(os.path.join(root, "o", "metadata.version-hint.text")).read().strip()
     nextv = int(curf[1:].split("-")[0].split(".")[0]) + 1
-    shutil.copy(os.path.join(mdir, curf), os.path.join(mdir, "v%d-0a0b0c0d.metadata.json" % nextv))
+    import json as _json
+    orphan = _json.load(open(os.path.join(mdir, curf))); orphan.setdefault("properties", {})["orphan"] = "1"
+    _json.dump(orphan, open(os.path.join(mdir, "v%d-0a0b0c0d.metadata.json" % nextv), "w"))
     M4 = MetadataManager(os.path.join(root, "o"), LocalStorageBackend(os.path.join(root, "o")))
+    seen = M4.refresh()
+    if seen is not None and "orphan" in seen.properties:
+        bad.append("a reader with a VALID pointer was served a higher-versioned metadata file the pointer never named (uncommitted state visible)")
     b = M4.refresh(); n = copy.deepcopy(b); n.properties = {"two": "1"}
     try:
         M4.commit(b, n)
@@ -467,6 +476,27 @@ try:
             bad.append("commit next to an orphan was acknowledged but is not visible")
     except Exception as e:
         bad.append("a commit on the current base was refused because of a dead writer's orphan metadata file: %r" % (e,))
+    # ---- FRAME: the pointer write LANDS and then reports an error (ambiguous): the version it names must still be there
+    class NonAtomicLocal(LocalStorageBackend):
+        atomic_write_failures = False            # like plain S3: a failed write may have landed
+    be5 = NonAtomicLocal(os.path.join(root, "amb"))
+    M5 = MetadataManager(os.path.join(root, "amb"), be5); M5.initialize_table(TableMetadata(location="amb"))
+    b = M5.refresh(); n = copy.deepcopy(b); n.properties = {"landed": "1"}
+    real_write = be5.write_file
+    def landed_then_error(path, content):
+        real_write(path, content)
+        if path.endswith("version-hint.text"): raise OSError("acknowledgement lost (injected)")
+    be5.write_file = landed_then_error
+    try:
+        M5.commit(b, n); bad.append("a failing pointer write was reported as success")
+    except mmod.AmbiguousCommitError:
+        pass
+    except Exception as e:
+        bad.append("landed-then-failed pointer write not reported as ambiguous: %r" % (e,))
+    be5.write_file = real_write
+    seen = MetadataManager(os.path.join(root, "amb"), LocalStorageBackend(os.path.join(root, "amb"))).refresh()
+    if seen is None or "landed" not in seen.properties:
+        bad.append("after an ambiguous pointer write that LANDED, the version the pointer names is gone: readers are served the previous version")
 finally:
     shutil.rmtree(root, ignore_errors=True)
 print("replay MetadataManager.commit ->", bad or "ok")
@@ -855,6 +885,27 @@ try:
         if rows(p) != [1, 2]: bad.append(("ambiguous commit that landed lost its rows", rows(p)))
     except Exception as e:
         bad.append(("ambiguous commit: files deleted", repr(e)[:100]))
+    # (4) an I/O error while removing the in-flight markers AFTER the pointer flip: the commit is done - it must not raise, let
+    #     alone roll back the files the new snapshot references
+    p = os.path.join(root, "t4"); t = create_table(p, schema=sch); t.append_records([{"a": 1}])
+    real_delete = t.storage.delete_file
+    hit = {"n": 0}
+    def failing_marker_delete(path):
+        if path.endswith(".inflight") and hit["n"] == 0:
+            hit["n"] += 1; raise OSError(5, "Input/output error (injected)")
+        return real_delete(path)
+    t.storage.delete_file = failing_marker_delete
+    try:
+        try:
+            t.append_records([{"a": 2}])
+        except Exception as e:
+            bad.append(("a committed transaction raised because marker cleanup failed", repr(e)[:100]))
+    finally:
+        t.storage.delete_file = real_delete
+    try:
+        if rows(p) != [1, 2]: bad.append(("marker-cleanup failure after the flip changed the table", rows(p)))
+    except Exception as e:
+        bad.append(("marker-cleanup failure after the flip: committed data files were deleted", repr(e)[:100]))
 finally:
     shutil.rmtree(root, ignore_errors=True)
 print("replay transaction commit ->", bad or "ok")
